@@ -11,6 +11,9 @@ import (
 
 // walkModel is parser.Walk read as a table.
 type walkModel struct {
+	p    *Program
+	at   map[ast.Expr]ast.Node // pushed expression -> the call that pushes it
+	full map[ast.Expr]bool     // pushed "expression" standing for every element of a slice (helper call)
 	fd       *ast.FuncDecl
 	stackObj types.Object
 	visitObj types.Object
@@ -24,7 +27,7 @@ func (p *Program) walkModel() *walkModel {
 	pkg := p.Parser
 	info := pkg.TypesInfo
 	fd := p.MustFunc(pkg, "Walk")
-	m := &walkModel{fd: fd, caseOf: map[string]*ast.CaseClause{}}
+	m := &walkModel{p: p, at: map[ast.Expr]ast.Node{}, full: map[ast.Expr]bool{}, fd: fd, caseOf: map[string]*ast.CaseClause{}}
 	params := fd.Type.Params.List
 	if len(params) != 2 {
 		fatalf("parser.Walk: expected 2 parameters")
@@ -74,16 +77,105 @@ func (m *walkModel) pushes(info *types.Info, n ast.Node) []ast.Expr {
 	var out []ast.Expr
 	ast.Inspect(n, func(x ast.Node) bool {
 		call, ok := x.(*ast.CallExpr)
-		if !ok || !IsBuiltinCall(info, call, "append") || len(call.Args) < 2 {
+		if !ok || len(call.Args) < 2 || objOf(info, call.Args[0]) != m.stackObj {
 			return true
 		}
-		if objOf(info, call.Args[0]) != m.stackObj {
+		if IsBuiltinCall(info, call, "append") {
+			for _, a := range call.Args[1:] {
+				// temporaries are looked through: prop := n.Props[i]; append(stack, prop.Value)
+				ra := m.p.resolveDeep(a, 0, m.p.DefExpr)
+				m.at[ra] = call
+				out = append(out, ra)
+			}
 			return true
 		}
-		out = append(out, call.Args[1:]...)
+		// stack = pushAll(stack, n.F): a helper that appends every element of its second argument
+		if fn := Callee(info, call); fn != nil && len(call.Args) == 2 && m.p.pushAllHelper(fn) {
+			ix := &ast.IndexExpr{X: call.Args[1], Lbrack: call.Args[1].End(), Index: &ast.Ident{Name: "_all", NamePos: call.Args[1].End()}}
+			if sl, ok := info.TypeOf(call.Args[1]).Underlying().(*types.Slice); ok {
+				info.Types[ix] = types.TypeAndValue{Type: sl.Elem()}
+			}
+			m.at[ix] = call
+			m.full[ix] = true
+			out = append(out, ix)
+		}
 		return true
 	})
 	return out
+}
+
+// pushAllHelper: fn(stack, nodes) appends every element of nodes (in some order) to stack and returns it.
+func (p *Program) pushAllHelper(fn *types.Func) bool {
+	decl, _ := p.DeclOf(fn)
+	if decl == nil || decl.Body == nil || decl.Type.Params.NumFields() != 2 || len(decl.Body.List) != 2 {
+		return false
+	}
+	info := p.Info
+	var ps []types.Object
+	for _, f := range decl.Type.Params.List {
+		for _, n := range f.Names {
+			ps = append(ps, info.Defs[n])
+		}
+	}
+	if len(ps) != 2 {
+		return false
+	}
+	ret, ok := decl.Body.List[1].(*ast.ReturnStmt)
+	if !ok || len(ret.Results) != 1 || objOf(info, ret.Results[0]) != ps[0] {
+		return false
+	}
+	// the loop: all indices (or all elements) of the second parameter
+	var body *ast.BlockStmt
+	var elem func(e ast.Expr) bool
+	switch l := decl.Body.List[0].(type) {
+	case *ast.ForStmt:
+		init, ok := l.Init.(*ast.AssignStmt)
+		if !ok || len(init.Lhs) != 1 {
+			return false
+		}
+		iv := objOf(info, init.Lhs[0])
+		paramExpr := &ast.Ident{Name: ps[1].Name()}
+		info.Uses[paramExpr] = ps[1]
+		if iv == nil || !isCountedLoopOver(info, l, iv, paramExpr) {
+			return false
+		}
+		body = l.Body
+		elem = func(e ast.Expr) bool {
+			ix, ok := ast.Unparen(e).(*ast.IndexExpr)
+			return ok && objOf(info, ix.X) == ps[1] && objOf(info, ix.Index) == iv
+		}
+	case *ast.RangeStmt:
+		if objOf(info, l.X) != ps[1] {
+			return false
+		}
+		body = l.Body
+		elem = func(e ast.Expr) bool {
+			if l.Value != nil && objOf(info, e) == objOf(info, l.Value) && objOf(info, e) != nil {
+				return true
+			}
+			ix, ok := ast.Unparen(e).(*ast.IndexExpr)
+			return ok && objOf(info, ix.X) == ps[1] && l.Key != nil && objOf(info, ix.Index) == objOf(info, l.Key)
+		}
+	default:
+		return false
+	}
+	if len(body.List) != 1 {
+		return false
+	}
+	as, ok := body.List[0].(*ast.AssignStmt)
+	if !ok || len(as.Lhs) != 1 || len(as.Rhs) != 1 || objOf(info, as.Lhs[0]) != ps[0] {
+		return false
+	}
+	call, ok := as.Rhs[0].(*ast.CallExpr)
+	return ok && IsBuiltinCall(info, call, "append") && len(call.Args) == 2 && objOf(info, call.Args[0]) == ps[0] && elem(call.Args[1])
+}
+
+// site: the syntax node at which a pushed expression is pushed (the pushing call).
+func (m *walkModel) site(e ast.Expr) ast.Node {
+	if at := m.at[e]; at != nil {
+		return at
+	}
+	return e
 }
 
 // dynTypes returns the dynamic types a value of static type t can have when it is pushed.
@@ -151,10 +243,43 @@ func ruleC11(p *Program, r *Run) {
 	}
 	sort.Strings(caseNames)
 	visitCalls := 0
+	counted := map[*ast.CaseClause]bool{}
 	for _, cn := range caseNames {
 		cc := m.caseOf[cn]
 		if len(m.sw.Types[cc]) != 1 {
-			r.Fail("C11/once", fn+" case "+cn, p.Pos(cc.Pos()), "case clause lists several types; per-type child table cannot be derived")
+			// several types in one clause: only possible for nodes without children (the clause cannot reach fields)
+			var T types.Type
+			for _, t := range m.sw.Types[cc] {
+				if t != nil && TypeStr(t) == cn {
+					T = t
+				}
+			}
+			leaf := T != nil
+			if st := StructOf(T); st != nil {
+				for i := 0; i < st.NumFields(); i++ {
+					f := st.Field(i)
+					elem := f.Type()
+					if sl, ok := elem.Underlying().(*types.Slice); ok {
+						elem = sl.Elem()
+					}
+					if types.Implements(elem, nodeIface) && skipDocumented[fieldKey(T, f)] == "" {
+						leaf = false
+					}
+				}
+			}
+			var visits []*ast.CallExpr
+			ast.Inspect(cc, func(x ast.Node) bool {
+				if call, ok := x.(*ast.CallExpr); ok && objOf(info, call.Fun) == m.visitObj {
+					visits = append(visits, call)
+				}
+				return true
+			})
+			if !counted[cc] {
+				visitCalls += len(visits)
+				counted[cc] = true
+			}
+			okLeaf := leaf && len(visits) == 1 && len(visits[0].Args) == 1 && objOf(info, visits[0].Args[0]) == clauseVar(info, cc) && len(m.pushes(info, cc)) == 0
+			r.Check(okLeaf, "C11/once", fn+" case "+cn, p.Pos(cc.Pos()), "shares a clause with other childless node types: visit(n) once, nothing pushed", "case clause lists several types but this one has children (or the clause does not call the visitor exactly once with the node): per-type children cannot be visited from a shared clause")
 			continue
 		}
 		T := m.sw.Types[cc][0]
@@ -186,10 +311,43 @@ func ruleC11(p *Program, r *Run) {
 			if ifs, isIf := p.Parent(visits[0]).(*ast.IfStmt); isIf && ifs.Cond == ast.Expr(visits[0]) && ifs.Init == nil {
 				gate = ifs
 			}
+			// if !visit(n) { continue }: everything after it in the clause is gated
+			var earlyExit *ast.IfStmt
+			if un, isNot := p.Parent(visits[0]).(*ast.UnaryExpr); isNot && un.Op == token.NOT {
+				if ifs, isIf := p.Parent(un).(*ast.IfStmt); isIf && ifs.Cond == ast.Expr(un) && ifs.Init == nil && ifs.Else == nil && len(ifs.Body.List) > 0 {
+					switch last := ifs.Body.List[len(ifs.Body.List)-1].(type) {
+					case *ast.BranchStmt:
+						if last.Tok == token.CONTINUE && last.Label == nil {
+							earlyExit = ifs
+						}
+					case *ast.ReturnStmt:
+						earlyExit = ifs
+					}
+					// only directly in the clause body (not nested in something that is skipped over)
+					if earlyExit != nil {
+						direct := false
+						for _, bs := range cc.Body {
+							if bs == ast.Stmt(earlyExit) {
+								direct = true
+							}
+						}
+						if !direct {
+							earlyExit = nil
+						}
+					}
+				}
+			}
 			for _, e := range pushes {
 				inside := false
+				var site ast.Node = e
+				if at := m.at[e]; at != nil {
+					site = at
+				}
+				if earlyExit != nil && site.Pos() > earlyExit.End() {
+					inside = true
+				}
 				if gate != nil {
-					p.ancestors(e, cc, func(anc, child ast.Node) bool {
+					p.ancestors(site, cc, func(anc, child ast.Node) bool {
 						if anc == ast.Node(gate) && child == ast.Node(gate.Body) {
 							inside = true
 							return false
@@ -267,7 +425,7 @@ func ruleC11(p *Program, r *Run) {
 									found = true
 									// nil rule for element fields
 									if optional[fieldKey(elem, ef)] != "" {
-										guarded := p.guardedByNonNil(info, e, cc, sel)
+										guarded := p.guardedByNonNil(info, m.site(e), cc, sel)
 										r.Check(guarded, "C11/nil", key+"[i]."+ef.Name(), p.Pos(e.Pos()), "optional field pushed under `!= nil`", fmt.Sprintf("optional field %s pushed without a nil guard (%s)", fieldKey(elem, ef), optional[fieldKey(elem, ef)]))
 									}
 								}
@@ -291,14 +449,14 @@ func ruleC11(p *Program, r *Run) {
 				continue
 			}
 			if isSlice {
-				// pushed inside a loop over all indices of the field
-				ok := p.inFullIndexLoop(info, fpush[0], cc)
+				// pushed inside a loop over all indices of the field (or by a helper that pushes every element)
+				ok := m.full[fpush[0]] || p.inFullIndexLoop(info, fpush[0], cc)
 				r.Check(ok, "C11/complete", key, p.Pos(fpush[0].Pos()), "every element pushed (loop over all indices)", "slice field is not pushed inside a loop over all of its indices")
 			} else {
 				r.Pass("C11/complete", key, p.Pos(fpush[0].Pos()), "pushed")
 			}
 			if why := optional[fk]; why != "" && !isSlice {
-				guarded := p.guardedByNonNil(info, fpush[0], cc, fpush[0])
+				guarded := p.guardedByNonNil(info, m.site(fpush[0]), cc, fpush[0])
 				r.Check(guarded, "C11/nil", key, p.Pos(fpush[0].Pos()), "optional field pushed under `!= nil`", fmt.Sprintf("optional field %s is pushed without a nil guard (%s): the visitor receives a nil node or the default branch panics", fk, why))
 			}
 		}
@@ -420,12 +578,12 @@ func ruleC11Pop(p *Program, r *Run, m *walkModel) {
 			continue
 		}
 		if objOf(info, as.Lhs[0]) == m.stackObj {
-			if sl, ok := as.Rhs[0].(*ast.SliceExpr); ok && objOf(info, sl.X) == m.stackObj && sl.Low == nil && isLenMinus1(info, sl.High, m.stackObj) {
+			if sl, ok := as.Rhs[0].(*ast.SliceExpr); ok && objOf(info, sl.X) == m.stackObj && sl.Low == nil && isLenMinus1(info, p.DefExpr(sl.High), m.stackObj) {
 				pops++
 			}
 			continue
 		}
-		if ix, ok := as.Rhs[0].(*ast.IndexExpr); ok && objOf(info, ix.X) == m.stackObj && isLenMinus1(info, ix.Index, m.stackObj) {
+		if ix, ok := as.Rhs[0].(*ast.IndexExpr); ok && objOf(info, ix.X) == m.stackObj && isLenMinus1(info, p.DefExpr(ix.Index), m.stackObj) {
 			popped = objOf(info, as.Lhs[0])
 		}
 	}
